@@ -1467,13 +1467,16 @@ class System:
         self.unprocessed_modules.remove(mod)
         if mod.source_path is None:
             assert mod._py_string is not None
+        # The module may be given another name while it is being processed (a
+        # re-export can move it): the stack holds the name it was entered with.
+        entered_as = mod.fullName()
         if mod._is_c_module:
-            self.processing_modules.append(mod.fullName())
+            self.processing_modules.append(entered_as)
             self.msg("processModule", "processing %s"%(self.processing_modules), 1)
             self._introspectThing(mod._py_mod, mod, mod)
             mod.state = ProcessingState.PROCESSED
             head = self.processing_modules.pop()
-            assert head == mod.fullName()
+            assert head == entered_as
         else:
             builder = self.defaultBuilder(self)
             if mod._py_string is not None:
@@ -1482,13 +1485,13 @@ class System:
                 assert mod.source_path is not None
                 ast = builder.parseFile(mod.source_path, mod)
             if ast:
-                self.processing_modules.append(mod.fullName())
+                self.processing_modules.append(entered_as)
                 if mod._py_string is None:
                     self.msg("processModule", "processing %s"%(self.processing_modules), 1)
                 builder.processModuleAST(ast, mod)
                 mod.state = ProcessingState.PROCESSED
                 head = self.processing_modules.pop()
-                assert head == mod.fullName()
+                assert head == entered_as
         self.progress(
             'process',
             self.module_count - len(self.unprocessed_modules),
